@@ -1,10 +1,13 @@
 use crate::common::run::Run;
+pub mod c01;
 pub mod c04;
 pub mod c05;
 pub mod c07;
 pub mod c08;
 pub mod c09;
+pub mod c11;
 pub mod c12;
+pub mod lin;
 pub mod c15;
 pub mod c16;
 pub mod c17;
@@ -13,11 +16,13 @@ pub mod c19;
 
 pub fn lookup(id: &str) -> Option<fn(&Run)> {
     Some(match id {
+        "C01" => c01::run,
         "C04" => c04::run,
         "C05" => c05::run,
         "C07" => c07::run,
         "C08" => c08::run,
         "C09" => c09::run,
+        "C11" => c11::run,
         "C12" => c12::run,
         "C15" => c15::run,
         "C16" => c16::run,
